@@ -104,7 +104,7 @@ def run(spec, ctx):
                 ref = ("1100" if t == "11" else t + "8D") + r["reason"][2:]
                 s1 = pm.gen_src(rng, u, True, c, srctype=t, refcode=ref, wordcount=9, ncallouts=0)
                 one([s1, sentinel(c)], c)
-                for k in rng.sample(range(8), 3):
+                for k in range(8):          # every word once
                     w = list(s1.m["words"])
                     w[k] = (w[k] ^ (1 << rng.randrange(32))) if rng.random() < 0.5 else rng.randrange(1 << 32)
                     ctx.count("src.twins")
